@@ -34,7 +34,8 @@ type c06Case struct {
 
 type maddr struct{ Name, Addr string }
 
-var c06Names = []string{"", "", "Plain Name", "Müller, Hans", `O'Neil "The Boss"`, "Semi; Colon: <angle>", "日本 太郎", "back\\slash", "  spaced   out  ", "(paren) name", "dot. name.", "a@b in name", "Ünï Cödé Näme That Is Rather Long And Needs Folding Somewhere Along The Line"}
+var c06Names = []string{"", "", "Plain Name", "Müller, Hans", `O'Neil "The Boss"`, "Semi; Colon: <angle>", "日本 太郎", "back\\slash", "  spaced   out  ", "(paren) name", "dot. name.", "a@b in name", "Ünï Cödé Näme That Is Rather Long And Needs Folding Somewhere Along The Line",
+	"Doe, John", "Smith; Jane: Dr.", "a,b,c", "Last, First \"Nick\" Middle", "comma, and <angle>, twice"}
 var c06Invalid = []string{"not an address", "a@", "@b.example", "a b@c.example", "<>", "", "x@y@z", "Name <broken", "\"unterminated <a@b.example>"}
 
 func fmtAddr(name, addr string) string {
